@@ -18,7 +18,7 @@ Open Scope R_scope.
 
 class Unit:
   def __init__(self, gen, module, name, rel, fn, cls=None, inputs=None, selfattrs=None, consts=None, sizes=None, outs=None, empty=None,
-               out_idx=None, driver=None, stubs=None, note=""):
+               out_idx=None, driver=None, stubs=None, note="", hand=None):
     self.gen, self.module, self.name, self.rel, self.fn, self.cls = gen, module, name, rel, fn, cls
     self.inputs = inputs or {}        # python arg name -> (coq name, [idx]) | python constant | None | ("obj", {field: ...})
     self.selfattrs = selfattrs or {}  # attr -> (coq name, [idx]) | constant
@@ -27,6 +27,7 @@ class Unit:
     self.empty = empty or {}          # "numpy.empty" shape-source text -> idx list
     self.out_idx = out_idx            # expected index signature(s) of the result(s) (checked)
     self.driver = driver              # rng -> (env, sizes, [expected arrays])
+    self.hand = hand                  # hand-written IR [(name, T)] for code outside the translator's language (tied by self-check only)
     self.stubs = stubs or {}          # dotted call text -> ("stub", result spec): calls replaced by declared inputs
     self.note = note
 
@@ -65,6 +66,8 @@ def _mk(v):
 
 def translate(src, u):
   """Returns list of (definition name, T)."""
+  if u.hand is not None:
+    return [(u.name + ("_" + n if n else ""), t) for n, t in u.hand], ["hand-written IR; tied to the code by the dual-rendering self-check only"]
   if u.cls:
     rel, fn = src.method(u.cls, u.fn)
   else:
